@@ -24,6 +24,8 @@ Fixpoint picks {A} (l : list A) : list (A * list A) :=
 Definition minimal (c : hcall) (rest : list hcall) : bool :=
   forallb (fun d => negb (h_ret d <? h_inv c)) rest.
 
+(** vm_compute is call-by-value: [&&], [||] and [existsb] would evaluate the
+    whole search tree; branches of [if] are evaluated on demand. *)
 Fixpoint lin (fuel : nat) (pending : list hcall) (s : table) (final : table -> bool) : bool :=
   match fuel with
   | O => false
@@ -31,10 +33,17 @@ Fixpoint lin (fuel : nat) (pending : list hcall) (s : table) (final : table -> b
       match pending with
       | [] => final s
       | _ =>
-          existsb (fun p =>
-            minimal (fst p) (snd p) &&
-            result_eqb (snd (hstep s (h_op (fst p)))) (h_res (fst p)) &&
-            lin n (snd p) (fst (hstep s (h_op (fst p)))) final) (picks pending)
+          (fix try (ps : list (hcall * list hcall)) : bool :=
+             match ps with
+             | [] => false
+             | p :: ps' =>
+                 if (if minimal (fst p) (snd p) then
+                       if result_eqb (snd (hstep s (h_op (fst p)))) (h_res (fst p)) then
+                         lin n (snd p) (fst (hstep s (h_op (fst p)))) final
+                       else false
+                     else false)
+                 then true else try ps'
+             end) (picks pending)
       end
   end.
 
@@ -94,8 +103,16 @@ Proof.
   induction fuel as [|n IH]; intros pending s final H; cbn [lin] in H; [discriminate|].
   destruct pending as [|c0 p0].
   - exists []. cbn. auto.
-  - apply existsb_exists in H. destruct H as [[c rest] [Hin H]]. cbn [fst snd] in H.
-    apply andb_prop in H. destruct H as [H Hl]. apply andb_prop in H. destruct H as [Hm Hr].
+  - remember (picks (c0 :: p0)) as ps eqn:Eps.
+    assert (forall x, In x ps -> In x (picks (c0 :: p0))) as Hsub by (intros; now subst).
+    clear Eps. induction ps as [|[c rest] ps IHps]; [discriminate|].
+    cbn [fst snd] in H.
+    destruct (minimal c rest) eqn:Hm; [|apply IHps; [exact H|intros; apply Hsub; now right]].
+    destruct (result_eqb (snd (hstep s (h_op c))) (h_res c)) eqn:Hr;
+      [|apply IHps; [exact H|intros; apply Hsub; now right]].
+    destruct (lin n rest (fst (hstep s (h_op c))) final) eqn:Hl;
+      [|apply IHps; [exact H|intros; apply Hsub; now right]].
+    assert (In (c, rest) (picks (c0 :: p0))) as Hin by (apply Hsub; now left).
     destruct (IH _ _ _ Hl) as (order & Hp & Hrt & Hseq).
     exists (c :: order). split; [|split].
     + rewrite <- (picks_perm _ _ _ Hin). now constructor.
@@ -140,8 +157,27 @@ Inductive acase :=
     (* unique tokens of one width appended to an empty key *)
 | CAddRace (attempts : list (bytes * N)) (final : option bytes)
     (* Adds of one absent key: value, 0 ok / 1 exists / 2 busy *)
-| CEmplaceRace (attempts : list (bytes * bool)) (final : option bytes).
+| CEmplaceRace (attempts : list (bytes * bool)) (final : option bytes)
     (* Emplaces of one absent key: value, reported busy? *)
+| CBlocked (writer : bool) (mid hret : N) (calls : list hcall).
+    (* memory backend, forced schedule: a call was held inside its critical
+       section (a Mutate in its function: [writer], a Walk in its Do: not)
+       from stamp [mid] until stamp [hret] (taken on leaving the callback,
+       the lock still held); the calls invoked in between that the lock
+       excludes must have returned after [hret] *)
+
+Definition is_write (u : uop) : bool :=
+  match u with
+  | UAdd _ _ | UAddClass _ _ _ | USetClass _ _ | URemove _ | UEmplace _ _ | UReplace _ _
+  | UAppendBytes _ _ | USetBytes _ _ | USet _ _ | UMutate _ _ | UClear | UCount => true
+      (* memKV.count takes the exclusive lock *)
+  | _ => false
+  end.
+
+Definition blocked_ok (writer : bool) (mid hret : N) (calls : list hcall) : bool :=
+  forallb (fun c =>
+    if (mid <? h_inv c) && (h_inv c <? hret) && (writer || is_write (h_op c))
+    then hret <? h_ret c else true) calls.
 
 Definition check_acase (c : acase) : bool :=
   match c with
@@ -163,6 +199,7 @@ Definition check_acase (c : acase) : bool :=
       | None => match applied with [] => true | _ => false end
       | Some v => existsb (fun a => bytes_eqb (fst a) v) applied
       end
+  | CBlocked writer mid hret calls => blocked_ok writer mid hret calls
   end.
 
 Fixpoint amismatches_from (i : nat) (cs : list acase) : list nat :=
